@@ -105,6 +105,11 @@ func checkC16(c c16Case, rec *Rec) *Violation {
 		if g := mr.GetCosmeticOption(); g != rules.CosmeticOptionAll {
 			return viol(id, "C16:option-without-basic-rule", "no basic rule, referrer rule %q: GetCosmeticOption=%03b, want everything enabled", c16RuleText(c), g)
 		}
+		// the option is derived from the verdict, whatever else was evaluated on the result before
+		_ = mr.GetBasicResult()
+		if g := mr.GetCosmeticOption(); g != rules.CosmeticOptionAll {
+			return viol(id, "C16:option-depends-on-call-order", "no basic rule, referrer rule %q: GetCosmeticOption=%03b after GetBasicResult was evaluated, %03b before", c16RuleText(c), g, rules.CosmeticOptionAll)
+		}
 		return nil
 	case "referrer-engine":
 		text := c16RuleText(c) + "\n##.generic\n"
@@ -118,6 +123,10 @@ func checkC16(c c16Case, rec *Rec) *Violation {
 		}
 		if g := res.GetCosmeticOption(); g != rules.CosmeticOptionAll {
 			return viol(id, "C16:option-without-basic-rule", "request matched by no rule, referrer matched by %q: GetCosmeticOption=%03b, want everything enabled", c16RuleText(c), g)
+		}
+		_ = res.GetBasicResult()
+		if g := res.GetCosmeticOption(); g != rules.CosmeticOptionAll {
+			return viol(id, "C16:option-depends-on-call-order", "request matched by no rule, referrer matched by %q: GetCosmeticOption=%03b after GetBasicResult was evaluated, %03b before", c16RuleText(c), g, rules.CosmeticOptionAll)
 		}
 		return nil
 	case "with-replace-rules":
@@ -182,6 +191,10 @@ func checkC16(c c16Case, rec *Rec) *Violation {
 	} else {
 		mr := rules.MatchingResult{BasicRule: basic}
 		got = mr.GetCosmeticOption()
+		_ = mr.GetBasicResult()
+		if g := mr.GetCosmeticOption(); g != got {
+			return viol(id, "C16:option-depends-on-call-order", "%s rule %q: GetCosmeticOption=%03b, but %03b after GetBasicResult was evaluated", c.Kind, c16RuleText(c), got, g)
+		}
 	}
 	if len(c.Mods) >= 2 && want != rules.CosmeticOptionAll {
 		rec.NonTrivial(key, c)
